@@ -261,6 +261,9 @@ def c06_units(tier, seed):
 def c07_units(tier, seed):
     us = [dict(id="C07a", harness="calendar.VH_C07_NewSolar", params={"B": 1 << 31})]
     ys = year_set(tier, seed, budget_quick=16) if tier == "quick" else year_set(tier, seed)[::3]
+    # years with a solar-term instant whose seconds round up across a minute / hour / day boundary: every lunar
+    # constructor of such a year converts that instant (carry chain of NewSolarFromJulianDay)
+    ys = sorted(set(ys) | {min(v, key=lambda y: abs(y - 2000)) for v in scan_feature_years("term-instant-rounds-up").values()})
     for Y in ys:
         for mo in range(-13, 14):
             us.append(dict(id=f"C07b[Y={Y},mo={mo}]", harness="calendar.VH_C07_NewLunar", params={"Y": Y, "MO": mo}))
@@ -307,6 +310,21 @@ PROPS["C15"] = dict(units=c15_units, bounds_text="all dates y in 1..9998 (year s
                     outside="month-separated stepping around October 1582 (Sep-Nov 1582 excluded); multi-step Next(n,true) is covered only through the one-step law")
 
 
+def jie23_units(pid, tier):
+    """start-of-fortune units for the months opened by a Jie at 23:xx (chosen by the native scan): the late-rat slot of
+    the Jie is where the start offset arithmetic changes shape"""
+    us = []
+    for f, ys in sorted(scan_feature_years("jie-at-23h-in-month-").items()):
+        m = int(f.rsplit("-", 1)[1])
+        pick = [min(ys, key=lambda y: abs(y - 2000))] if tier == "quick" else ys
+        for Y in pick:
+            if Y > 9800:
+                continue
+            for sect in (1, 2):
+                us.append(dict(id=f"{pid}[sect={sect},Y={Y},m={m},jie-at-23h]", harness="calendar.VH_C12_Start", params={"Y": Y, "SECT": sect}, concrete={"v_m": m}))
+    return us
+
+
 def c12_units(tier, seed):
     q = tier == "quick"
     ys = year_set(tier, seed, budget_quick=10) if q else year_set(tier, seed)[::6]
@@ -314,6 +332,7 @@ def c12_units(tier, seed):
     us = []
     for sect in (1, 2):
         us += per_year("calendar.VH_C12_Start", f"C12a[sect={sect}]", ys, {"SECT": sect})
+    us += jie23_units("C12a", tier)
     ys2 = [2020] if q else [15, 1990, 2020, 2033, 9000]
     for Y in ys2:
         for I in ((0, 1, 5, 9) if q else range(10)):
@@ -355,6 +374,10 @@ def c08_units(tier, seed):
         if Y < 2 or Y > 9997:
             continue
         us.append(dict(id=f"C08c[Y={Y}]", harness="calendar.VH_C08_Containers", params={"Y": Y}))
+    # the lunar-year object for every year at once (table computation cut out, year symbolic)
+    us.append(dict(id="C08e[y=0..9999]", harness="calendar.VH_C08_YearObjectAll", params={"YLO": 0, "YHI": 9999}))
+    # range lemma of the fortune chain states (start offsets) where the arithmetic changes shape
+    us += jie23_units("C08f", tier)
     return us
 
 
@@ -378,6 +401,10 @@ def c18_units(tier, seed):
         us.append(dict(id=f"C18a[base={b}]", harness="calendar.VH_C18_Pure", params={"Y": b}))
         us.append(dict(id=f"C18b[base={b}]", harness="calendar.VH_C18_Laws", params={"Y": b}))
     us.append(dict(id="C18c", harness="calendar.VH_C18_Tables", params={}))
+    # list-valued attributes: defining inputs case-split by the solver, one unit per month number / branch
+    for K in (0, 1, 2, 3):
+        for M in (range(1, 13) if K == 0 else range(12)):
+            us.append(dict(id=f"C18d[K={K},M={M}]", harness="calendar.VH_C18_ListPure", params={"Y": 2020, "K": K, "M": M}))
     return us
 
 
@@ -385,7 +412,7 @@ _field = "field-level: every state of the lunar date satisfying the class invari
 PROPS["C08"] = dict(units=c08_units, bounds_text=_field + "; real objects: every second of each listed year for the accessors that build other dates, the fortune chain and the packed-table lists (pillars concretised per month); containers of each listed year",
                     outside="Solar.GetJulianDay at second resolution (not encodable; 3-hour marks in C04); years not listed for the real-object part", unit_timeout_ms={"quick": 900000, "thorough": 2400000})
 PROPS["C11"] = dict(units=c11_units, bounds_text=_field + ", both sects; pillar purity over pairs of such states; hour object vs own hour accessors on real objects for every second of each listed year", outside="list-valued hour yi/ji routes; reverse lookup default sect (C10)", unit_timeout_ms={"quick": 900000, "thorough": 2400000})
-PROPS["C18"] = dict(units=c18_units, bounds_text=_field + "; purity over pairs of such states; table laws evaluated concretely", outside="list-valued yi/ji/jishen/xiongsha purity (structural: the accessors pass exactly the pillar strings to table functions)")
+PROPS["C18"] = dict(units=c18_units, bounds_text=_field + "; purity over pairs of such states (scalar attributes fully symbolic; list-valued yi/ji/spirit lists with their defining pillars case-split by the solver and every non-defining pillar variant walked under a symbolic guard); table laws evaluated concretely", outside="none within InvLunar; the CONTENT of the packed almanac tables is not checked, only that the accessors are functions of the stated inputs")
 
 
 def holiday_years():
@@ -426,13 +453,16 @@ def c09_units(tier, seed):
     pairs = [(2020, 1990)] if q else [(2020, 1990), (15, 16), (9992, 9993), (1582, 2033)]
     for (A, B) in pairs:
         for X in range(7):
-            us.append(dict(id=f"C09a[A={A},B={B},X={X}]", harness="calendar.VH_C09_History", params={"A": A, "B": B, "X": X}))
+            us.append(dict(id=f"C09a[A={A},B={B},X={X}]", harness="calendar.VH_C09_History", params={"A": A, "B": B, "X": X, "H": 3 if q else 4}))
         us.append(dict(id=f"C09b[A={A},B={B}]", harness="calendar.VH_C09_LockDiscipline", params={"A": A, "B": B, "ENV": 1}))
         us.append(dict(id=f"C09c[Y={A}]", harness="calendar.VH_C09_SharedReads", params={"Y": A}))
+    if not q:
+        for X in range(7):
+            us.append(dict(id=f"C09a[H=5,X={X}]", harness="calendar.VH_C09_History", params={"A": 2020, "B": 1990, "X": X, "H": 5}))
     return us
 
 
-PROPS["C09"] = dict(units=c09_units, bounds_text="histories: every sequence of 3 calls from a 7-entry menu (two years' tables, conversions, recovered panics on invalid input and on an absurd year) before the observed call, for each menu entry as observed call; concurrency: one critical-section step of NewLunarYear under arbitrary interference at every lock acquisition (cache empty / other year / same year), lock released on every path incl. panics; every zero-argument accessor AND every method taking only int/bool options (sect, gender, step count; called with 1 and 2 / true and false; Set* mutators excluded) of 19 object types free of unprotected writes to shared memory (lockset argument: no two concurrent readers can race)",
+PROPS["C09"] = dict(units=c09_units, bounds_text="histories: every sequence of 3 calls (quick; thorough: 4 calls for four year pairs and 5 calls for one) from a 7-entry menu (two years' tables, conversions, recovered panics on invalid input and on an absurd year) before the observed call, for each menu entry as observed call; concurrency: one critical-section step of NewLunarYear under arbitrary interference at every lock acquisition (cache empty / other year / same year), lock released on every path incl. panics; every zero-argument accessor AND every method taking only int/bool options (sect, gender, step count; called with 1 and 2 / true and false; Set* mutators excluded) of 19 object types free of unprotected writes to shared memory (lockset argument: no two concurrent readers can race)",
                     outside="goroutine scheduling below critical-section granularity is covered only through the lockset argument (all accesses to the cache are inside the lock; readers write nothing); weak memory; HolidayUtil.Fix (a documented mutator); more than 3-call histories",
                     assumptions=["sync.Mutex is modelled as a held flag; Lock on a held mutex in a sequential history is reported as the library being blocked", "environment model at Lock: protected state is re-chosen within the cache invariant (nil, or a table that equals the sequentially computed table of its year)"])
 
